@@ -32,6 +32,10 @@ type PlanCase struct {
 	Last    int    `json:"last"`     // reported LastVerifiedChunk
 	Hash    string `json:"hash"`     // good | bad | unknown | zero
 	Streams int    `json:"streams"`
+	// the receiver answers the ResumeRequest only after this delay (longer than the sender's 300 ms grace: the sender has then sent every
+	// chunk and the end record without a plan) and confirms the file only DoneDelayMs after it saw FileEnd
+	ReportDelayMs int `json:"report_delay_ms"`
+	DoneDelayMs   int `json:"done_delay_ms"`
 }
 
 type PlanResult struct {
@@ -44,6 +48,7 @@ type PlanResult struct {
 	Verified  int    `json:"verified_chunk"`
 	Stats     bool   `json:"stats"`
 	EndCount  int    `json:"file_end_count"` // the frame count FileEnd announced (-1: no FileEnd seen)
+	LateFrames []int `json:"frames_after_end"` // chunk frames that arrived more than 50 ms after FileEnd had been read
 }
 
 func runPlan(c PlanCase) (res PlanResult) {
@@ -79,7 +84,8 @@ func runPlan(c PlanCase) (res PlanResult) {
 	if streams < 1 {
 		streams = 1
 	}
-	var mu sync.Mutex
+	var mu, wmu sync.Mutex
+	var endSeen time.Time // when the scripted receiver read FileEnd
 	sopts := transfer.Options{ChunkSize: chunk, ParallelFiles: streams, Resume: true, ResumeVerifyTail: c.Tail, ResumeVerify: c.Verify, HashAlg: c.HashAlg}
 	sopts.ParamSource = func() transfer.RuntimeParams { return transfer.RuntimeParams{ChunkSize: chunk, ParallelFiles: streams} }
 	sopts.ResumeStatsFn = func(rel string, skipped, total, verified uint32, sz int64, cs uint32) {
@@ -113,6 +119,9 @@ func runPlan(c PlanCase) (res PlanResult) {
 			}
 			mu.Lock()
 			res.Sent = append(res.Sent, int(idx))
+			if !endSeen.IsZero() && time.Since(endSeen) > 50*time.Millisecond {
+				res.LateFrames = append(res.LateFrames, int(idx))
+			}
 			mu.Unlock()
 		}
 	}
@@ -173,15 +182,34 @@ func runPlan(c PlanCase) (res PlanResult) {
 				case "unknown":
 					info.LastVerifiedHash = transfer.VerifResumeHashUnknown
 				}
-				if err := transfer.VerifWriteFileResumeInfo(ctl, info); err != nil {
+				if c.ReportDelayMs > 0 {
+					go func() {
+						time.Sleep(time.Duration(c.ReportDelayMs) * time.Millisecond)
+						wmu.Lock()
+						transfer.VerifWriteFileResumeInfo(ctl, info)
+						wmu.Unlock()
+					}()
+					continue
+				}
+				wmu.Lock()
+				err := transfer.VerifWriteFileResumeInfo(ctl, info)
+				wmu.Unlock()
+				if err != nil {
 					scriptDone <- "write-info:" + err.Error()
 					return
 				}
 			case transfer.FileEnd:
 				mu.Lock()
 				res.EndCount = int(x.CRC32)
+				endSeen = time.Now()
 				mu.Unlock()
-				if err := transfer.VerifWriteFileDone(ctl, transfer.FileDone{StreamID: x.StreamID, OK: true}); err != nil {
+				if c.DoneDelayMs > 0 {
+					time.Sleep(time.Duration(c.DoneDelayMs) * time.Millisecond)
+				}
+				wmu.Lock()
+				err := transfer.VerifWriteFileDone(ctl, transfer.FileDone{StreamID: x.StreamID, OK: true})
+				wmu.Unlock()
+				if err != nil {
 					scriptDone <- "write-done:" + err.Error()
 					return
 				}
